@@ -64,13 +64,17 @@ def pycode_path(build=True):
 
     The directory is keyed by ``repo_hash()``; a change to any source file (including
     ``symprocessor.py``, which the library's own md5 staleness test does not see) gives
-    a new key and a regeneration.  Old keys are removed.
+    a new key and a regeneration.  Keys unused for four hours are removed (beyond the six most recent).
     """
     key = repo_hash()
     os.makedirs(CACHE, exist_ok=True)
     path = os.path.join(CACHE, "pycode-" + key)
     done = os.path.join(path, ".complete")
     if os.path.exists(done) or not build:
+        try:
+            os.utime(path, None)          # mark as in use (eviction looks at this time)
+        except OSError:
+            pass
         return path
     lock = open(os.path.join(CACHE, ".lock"), "w")
     fcntl.flock(lock, fcntl.LOCK_EX)
@@ -79,8 +83,10 @@ def pycode_path(build=True):
             return path
         olds = sorted((o for o in os.listdir(CACHE) if o.startswith("pycode-") and o != "pycode-" + key),
                       key=lambda o: os.path.getmtime(os.path.join(CACHE, o)))
-        for old in olds[:-4]:      # keep a few recent keys (concurrent runs on other trees)
-            shutil.rmtree(os.path.join(CACHE, old), ignore_errors=True)
+        # other keys may be in use by concurrent runs on other trees: only remove what has not been used for hours
+        for old in olds[:-6]:
+            if time.time() - os.path.getmtime(os.path.join(CACHE, old)) > 4 * 3600:
+                shutil.rmtree(os.path.join(CACHE, old), ignore_errors=True)
         shutil.rmtree(path, ignore_errors=True)
         os.makedirs(path)
         code = (
